@@ -38,13 +38,19 @@ pub fn pred_to_scenario(pred: &[serde_json::Value], id: &str) -> Scenario {
     let mut cur: Option<u32> = None;
     let mut acts: Vec<Act> = vec![];
     let mut scripts: BTreeMap<u32, Vec<Step>> = BTreeMap::new();
+    let mut uptotal: u64 = 0;
+    let mut maxc: u32 = 0;
     for e in pred {
         let name = e["e"].as_str().unwrap_or("");
         let c = e["c"].as_u64().unwrap_or(0) as u32;
+        if c < 100_000 {
+            maxc = maxc.max(c);
+        }
         match name {
             "reset" => {
                 sc.kind = e["kind"].as_str().unwrap_or("").to_string();
                 sc.cap = e["cap"].as_u64().unwrap_or(0) as usize;
+                uptotal = e["uptotal"].as_u64().unwrap_or(0);
             }
             "push" => {
                 let how = e["how"].as_str().unwrap_or("back");
@@ -86,6 +92,19 @@ pub fn pred_to_scenario(pred: &[serde_json::Value], id: &str) -> Scenario {
     }
     sc.scripts = scripts;
     sc.pred = pred.to_vec();
+    if matches!(sc.kind.as_str(), "bu" | "bo" | "tbu" | "tbo" | "fe") {
+        // the model's upstream produces `uptotal` items in all; what the prefix did not pull yet is still to come
+        let pulled = sc.up.iter().filter(|u| u.resp == "I" || u.resp == "X").count() as u64;
+        let ended = sc.up.iter().any(|u| u.resp == "E");
+        if !ended {
+            for _ in pulled..uptotal {
+                maxc += 1;
+                sc.up.push(UpStep { resp: "I".into(), c: maxc });
+            }
+            sc.up.push(UpStep { resp: "E".into(), c: 0 });
+        }
+        sc.hint = "exact".into();
+    }
     if matches!(sc.kind.as_str(), "mb" | "mu") {
         // sources keep one more item for the drain phase unless their script ended them
         for c in sc.scripts.keys() {
@@ -160,6 +179,9 @@ fn main() {
     world::reset_world(false);
     world::install_hook();
     let hooklog = flag(&args, "--hooklog");
+    if std::env::var("FBV_TRAP_ALLOC").is_ok() {
+        world::TRAP.store(true, std::sync::atomic::Ordering::Relaxed);
+    }
     match args[1].as_str() {
         "replay" => {
             let inp = std::fs::File::open(&args[2]).expect("open pred");
